@@ -499,6 +499,107 @@ def _(spec):
     _comp(spec, "fuel", "fuel")["dims"]["mult"] = 7.0
 
 
+# ---- the lattice-ID alphabet: IDs are text in the lattice map, but YAML values in ``latticeIDs``
+# and in explicit ``grid contents`` (1 -> int, 1.0 -> float, true -> bool, null -> None).  The
+# evaluator matches them as text.  Words, integers and decimals must work in both forms of the
+# grid; booleans/null (whose YAML value has no unique text) may instead be refused.
+
+
+def token_class(tok):
+    if tok in ("true", "false"):
+        return "bool"
+    if tok in ("null",):
+        return "null"
+    try:
+        int(tok)
+        return "int"
+    except ValueError:
+        pass
+    try:
+        float(tok)
+        return "float"
+    except ValueError:
+        return "word"
+
+
+_RANK = ["word", "int", "float", "bool", "null"]
+
+
+def _pinids(X, Y, order, asmap, variant=""):
+    """Centre pin X (a slug), ring pins Y (fuel); the clad surrounds both: latticeIDs [X, Y] or
+    [Y, X].  variant: 'unused' - a map token no component lists; 'absent' - the clad also lists
+    an ID that is not in the map; 'only-absent' - the slug lists only such an ID."""
+
+    def f(spec):
+        b = _block(spec)
+        b["grid name"] = "pins"
+        cont = {c: (X if c == (0, 0) else Y) for c in c18_maps.full_cells(2)}
+        if variant == "unused":
+            cont[(1, 0)] = "Z"
+        spec["grids"]["pins"] = {"geom": "hex", "symmetry": "full", "contents": cont, "map_kind": "full", "as_map": bool(asmap)}
+        fuel, clad = _comp(spec, "fuel", "fuel"), _comp(spec, "fuel", "clad")
+        fuel["dims"].pop("mult")
+        clad["dims"].pop("mult")
+        fuel["latticeIDs"] = [Y]
+        clad["latticeIDs"] = ([X, Y] if order == 0 else [Y, X]) + (["Q"] if variant == "absent" else [])
+        _insert_before(b, "clad", comp("slug", "Circle", "HT9", 25.0, 450.0, id=0.0, od=0.8, latticeIDs=["Q" if variant == "only-absent" else X]))
+        worst = max((token_class(X), token_class(Y)), key=_RANK.index)
+        spec["_keytag"] = "pin-lattice-ids-%s-in-%s" % (worst, "map" if asmap else "contents")
+        if worst in ("bool", "null"):
+            spec["_may_refuse"] = True
+
+    return f
+
+
+for _X, _Y in (("C", "1"), ("1", "C"), ("1", "2"), ("12", "1"), ("1.0", "C"), ("C", "2.5"), ("on", "C"), ("N", "Y"), ("no", "yes"), ("true", "C"), ("C", "false"), ("null", "C")):
+    for _o in (0, 1):
+        for _m in (1, 0):
+            dev(["hex"], "pins", "ids-%s-%s-%s%s" % (_X, _Y, "xy" if _o == 0 else "yx", "-map" if _m else ""))(_pinids(_X, _Y, _o, _m))
+for _var in ("unused", "absent", "only-absent"):
+    for _m in (1, 0):
+        dev(["hex"], "pins", "ids-%s%s" % (_var, "-map" if _m else ""))(_pinids("C", "1", 0, _m, _var))
+
+
+# ---- name-like fields holding a token that YAML does not read as a string: the document is
+# either refused or built as the text says
+
+
+def _token_field(field, tok):
+    def f(spec):
+        spec["_may_refuse"] = True
+        spec["_keytag"] = "yaml-typed-token-in-%s" % field
+        if field in ("specifier-map", "specifier-contents"):
+            spec["assemblies"]["outer fuel"]["specifier"] = tok
+            g = spec["grids"]["core"]
+            g["contents"] = {k: (tok if v == "OC" else v) for k, v in g["contents"].items()}
+            g["as_map"] = field.endswith("map")
+        elif field == "component-name":
+            for b in spec["blocks"].values():
+                for c in b["components"]:
+                    if c["name"] == "duct":
+                        c["name"] = tok
+                    for k, v in list(c["dims"].items()):
+                        if isinstance(v, str) and v.startswith("duct."):
+                            c["dims"][k] = tok + "." + v.split(".")[1]
+        elif field == "assembly-name":
+            spec["assemblies"] = {(tok if k == "outer fuel" else k): v for k, v in spec["assemblies"].items()}
+        elif field == "block-name":
+            spec["blocks"] = {(tok if k == "plenum" else k): v for k, v in spec["blocks"].items()}
+            for a in spec["assemblies"].values():
+                a["blocks"] = [tok if b == "plenum" else b for b in a["blocks"]]
+        elif field == "xs":
+            spec["assemblies"]["outer fuel"]["xs"] = [tok] + spec["assemblies"]["outer fuel"]["xs"][1:]
+
+    return f
+
+
+for _fld in ("specifier-map", "specifier-contents", "component-name", "assembly-name", "block-name", "xs"):
+    for _tok in ("1", "1.0", "on", "N", "no", "true", "null"):
+        if _fld == "component-name" and "." in _tok:
+            continue  # a period in a component name makes its links ambiguous
+        dev(["hex"], "tokens", "%s-%s" % (_fld, _tok))(_token_field(_fld, _tok))
+
+
 # ---- block stack
 
 
@@ -926,6 +1027,12 @@ CONFLICTS = [
     {"stack", "mesh"},
     {"stack", "mods"},
     {"mods", "isotopics"},
+    {"tokens", "stack"},
+    {"tokens", "designs"},
+    {"tokens", "grid"},
+    {"tokens", "sharing"},
+    {"tokens", "links"},
+    {"tokens", "invalid"},
     {"sharing", "stack"},
     {"sharing", "heights"},
     {"sharing", "xs"},
@@ -935,6 +1042,9 @@ CONFLICTS = [
     {"sharing", "extra"},
     {"sharing", "extra_mat"},
 ]
+
+
+IDS_PARTNERS = ("stack", "nucflags", "pitch")
 
 
 def make_spec(case):
@@ -964,6 +1074,11 @@ def enumerate_cases(maxdev):
             for b in range(a + 1, len(singles)):
                 (b1, d1, a1), (b2, d2, a2) = singles[a], singles[b]
                 if b1 != b2 or d1 == d2 or {d1, d2} in CONFLICTS:
+                    continue
+                # boundary-token alternatives are explored alone (tokens) or with few partners
+                if "tokens" in (d1, d2):
+                    continue
+                if (d1 == "pins" and a1.startswith("ids-") and d2 not in IDS_PARTNERS) or (d2 == "pins" and a2.startswith("ids-") and d1 not in IDS_PARTNERS):
                     continue
                 devs = [[d1, a1], [d2, a2]]
                 # apply the invalid deviation last (it edits what the other one created)
